@@ -113,7 +113,7 @@ Combo(b, p, d) ==
                 /\ (b.V = 4 => b.cf[1][2] = b.cf[2][2])
 
 Init ==
-    /\ \E b \in CfgSet, p \in Pairs, d \in DocIds : Combo(b, p, d) /\ SysInit(FullCfg(b, p[1], p[2], d, Len(DocOf(d))), DocOf(d))
+    /\ \E b \in CfgSet, p \in Pairs, d \in DocIds : Combo(b, p, d) /\ SysInit(FullCfg(b, p[1], p[2], d, NObj(DocOf(d))), DocOf(d))
     /\ hist = <<>>
 
 Toks == {cfg.user, cfg.owner} \cup Attempts
@@ -122,8 +122,7 @@ Toks == {cfg.user, cfg.owner} \cup Attempts
 Entry ==
     [call |-> lastCall'.call, tok |-> lastCall'.tok, rel |-> lastCall'.rel,
      ok |-> verdict'.ok, tags |-> verdict'.tags,
-     res |-> IF lastResult'.ok THEN "Ok" ELSE "Err", tag |-> lastResult'.tag, tenc |-> trailerEncrypt' # 0, nobj |-> Len(doc'),
-     eq |-> LET it == Items(doc') IN [i \in DOMAIN it |-> it[i].eq]]
+     res |-> IF lastResult'.ok THEN "Ok" ELSE "Err"]
 
 Rec == hist' = Append(hist, Entry)
 
@@ -158,5 +157,5 @@ JudgeTracks ==
 CfgJson == [name |-> cfg.name, V |-> cfg.V, R |-> cfg.R, klen |-> cfg.klen, em |-> cfg.em, cf |-> cfg.cf, stmf |-> cfg.stmf,
             strf |-> cfg.strf, user |-> cfg.user, owner |-> cfg.owner, dn |-> cfg.dn, e |-> cfg.e, ulen |-> cfg.ulen, olen |-> cfg.olen]
 
-EmitInv == (Emit /\ hist # <<>>) => PrintT(<<"REPLAY", ToJson([cfg |-> CfgJson, calls |-> hist])>>)
+EmitInv == (Emit /\ hist # <<>> /\ Len(hist) <= MaxDepth) => PrintT(<<"REPLAY", ToJson([cfg |-> CfgJson, calls |-> hist])>>)
 =============================================================================
